@@ -11,6 +11,7 @@ pub fn configs(tier: Tier) -> Vec<Box<dyn Config>> {
     let p = vec![Probe::ManyMut];
     let mut v: Vec<Box<dyn Config>> = Vec::new();
     v.push(Box::new(ZstManyMut));
+    v.push(Box::new(UnsizedKeys));
     // scripted deep tables: elements displaced into a second probe group, tombstones, full load
     {
         use crate::explore::Limits;
@@ -150,6 +151,141 @@ impl Config for ZstManyMut {
     fn replay(&self, _rp: &Value) -> Result<(), String> {
         env::reset();
         match env::catch(zst_all) {
+            Ok(r) => r.map(|_| ()),
+            Err(m) => Err(m),
+        }
+    }
+}
+
+// ---------------------------------------------------------------------------
+// Unsized borrowed query keys (`Q: ?Sized`): the N queries are sub-slices of ONE buffer - same start address,
+// different lengths - so anything that identifies a query by its address instead of hashing / comparing it
+// confuses distinct keys.
+// ---------------------------------------------------------------------------
+
+pub struct UnsizedKeys;
+
+#[derive(Clone, Default)]
+struct Fnv;
+struct FnvH(u64);
+impl std::hash::BuildHasher for Fnv {
+    type Hasher = FnvH;
+    fn build_hasher(&self) -> FnvH {
+        FnvH(0xcbf29ce484222325)
+    }
+}
+impl std::hash::Hasher for FnvH {
+    fn finish(&self) -> u64 {
+        self.0
+    }
+    fn write(&mut self, b: &[u8]) {
+        for &x in b {
+            self.0 = (self.0 ^ x as u64).wrapping_mul(0x100000001b3);
+        }
+    }
+}
+
+fn unsized_tuple<const N: usize>(present: u32, lens: [usize; N]) -> Result<(), String> {
+    const BUF: &[u8] = b"abcdefgh";
+    type M = hashbrown::HashMap<Vec<u8>, u32, Fnv, CheckAlloc>;
+    let mut m = M::with_hasher_in(Fnv, CheckAlloc);
+    for l in 1..=5usize {
+        if present >> l & 1 == 1 {
+            m.insert(BUF[..l].to_vec(), l as u32);
+        }
+    }
+    let is_present = |l: usize| l <= 5 && present >> l & 1 == 1;
+    let mut expect_panic = false;
+    for i in 0..N {
+        for j in 0..i {
+            if lens[i] == lens[j] && is_present(lens[i]) {
+                expect_panic = true;
+            }
+        }
+    }
+    for (kv, unchecked) in [(false, false), (true, false), (false, true), (true, true)] {
+        if unchecked && expect_panic {
+            continue;
+        }
+        let what = format!("{}({:?}) on the prefixes of one buffer (present lengths mask {present:#b})", match (kv, unchecked) {
+            (false, false) => "get_many_mut",
+            (true, false) => "get_many_key_value_mut",
+            (false, true) => "get_many_unchecked_mut",
+            (true, true) => "get_many_key_value_unchecked_mut",
+        }, lens);
+        let r = env::catch(|| {
+            let ks: [&[u8]; N] = std::array::from_fn(|i| &BUF[..lens[i]]);
+            let out: [Option<(usize, u32)>; N] = match (kv, unchecked) {
+                (false, false) => m.get_many_mut(ks).map(|o| o.map(|v| (usize::MAX, *v))),
+                (true, false) => m.get_many_key_value_mut(ks).map(|o| o.map(|(k, v)| (k.len(), *v))),
+                // SAFETY (contract of the unchecked variants): no two requests resolve to the same entry
+                (false, true) => unsafe { m.get_many_unchecked_mut(ks) }.map(|o| o.map(|v| (usize::MAX, *v))),
+                (true, true) => unsafe { m.get_many_key_value_unchecked_mut(ks) }.map(|o| o.map(|(k, v)| (k.len(), *v))),
+            };
+            out
+        });
+        match r {
+            Err(msg) => {
+                if !expect_panic {
+                    return Err(format!("{what} panicked ({msg}) although no two requests resolve to the same entry"));
+                }
+            }
+            Ok(out) => {
+                if expect_panic {
+                    return Err(format!("{what} returned although two requests resolve to the same entry"));
+                }
+                for i in 0..N {
+                    let want = if is_present(lens[i]) { Some(lens[i] as u32) } else { None };
+                    if out[i].map(|e| e.1) != want || out[i].map_or(false, |e| e.0 != usize::MAX && e.0 != lens[i]) {
+                        return Err(format!("{what}: result {i} is {:?}, expected the entry of the {}-byte prefix: {:?}", out[i], lens[i], want));
+                    }
+                }
+            }
+        }
+    }
+    Ok(())
+}
+
+fn unsized_all() -> Result<u64, String> {
+    let mut count = 0;
+    for present in (0..64u32).filter(|p| p & 1 == 0) {
+        for a in 1..=6usize {
+            unsized_tuple::<1>(present, [a])?;
+            for b in 1..=6usize {
+                unsized_tuple::<2>(present, [a, b])?;
+                for c in 1..=6usize {
+                    unsized_tuple::<3>(present, [a, b, c])?;
+                    count += 1;
+                }
+            }
+        }
+    }
+    Ok(count)
+}
+
+impl Config for UnsizedKeys {
+    fn label(&self) -> String {
+        "unsized-borrowed-query-keys".into()
+    }
+    fn run(&self) -> ConfigReport {
+        crate::crumbs::set_config(&self.label());
+        let t0 = std::time::Instant::now();
+        env::reset();
+        let mut rep = ConfigReport { label: self.label(), mode: "enum".into(), exhaustive: true, ..Default::default() };
+        match env::catch(unsized_all) {
+            Ok(Ok(n)) => {
+                rep.executions = n;
+                rep.states = 32;
+                rep.detail = json!({"maps": "all subsets of the 5 prefixes of one buffer", "tuples": "N = 1..=3 over prefix lengths 1..=6 (6 = absent)", "runs": n, "distinct_nontrivial": n});
+            }
+            Ok(Err(m)) | Err(m) => rep.violations.push(Viol { config: self.label(), message: m, replay: json!({"unsized_keys": true}) }),
+        }
+        rep.wall_s = t0.elapsed().as_secs_f64();
+        rep
+    }
+    fn replay(&self, _rp: &Value) -> Result<(), String> {
+        env::reset();
+        match env::catch(unsized_all) {
             Ok(r) => r.map(|_| ()),
             Err(m) => Err(m),
         }
